@@ -48,7 +48,10 @@ Definition op_of_sx (s : sx) : option op :=
   | SList [SInt 31; SInt slot] => Some (IterHasNext slot)
   | SList [SInt 32; SInt slot] => Some (IterNext slot)
   | SList [SInt 33; SInt slot] => Some (IterRemove slot)
+  | SList [SInt 34; SInt slot; SInt v] => Some (IterSetValue slot v)
   | SList [SInt 40] => Some Probe
+  | SList [SInt 41; SInt acc; SInt k; SInt v] => Some (SetValueAt acc k v)
+  | SList [SInt 42; SInt a1; SInt k1; SInt a2; SInt k2] => Some (EntryEquals a1 k1 a2 k2)
   | _ => None
   end.
 
@@ -68,6 +71,7 @@ Definition cat (o : op) : N :=
   | IterRemove _ => 11
   | Probe => 12
   | ForeachRemove _ _ => 14
+  | SetValueAt _ _ _ | EntryEquals _ _ _ _ | IterSetValue _ _ => 16
   end%N.
 
 Fixpoint sx_eqb (a b : sx) : bool :=
@@ -186,6 +190,8 @@ Definition height_ok (t : tree) : bool :=
 Definition check_probe (x : sx) (ms : mstate) (ss : sstate) : verdict :=
   match x with
   | SList [SInt sz; SInt parents_ok; sh] =>
+      if negb (parents_ok =? 1) then VMismatch 15   (* the dump of a broken structure is truncated *)
+      else
       match sx_ints sh with
       | Some ints =>
           match tree_of_shape ints with
